@@ -77,8 +77,10 @@ class CloneUniverse(Universe):
             acc[id(v)] = "value"
             if v.shape is not None:
                 acc[id(v.shape)] = "shape"
-            if v.type is not None:
-                acc[id(v.type)] = "type"
+            t = v.type
+            while t is not None:
+                acc[id(t)] = "type"
+                t = t.elem_type if isinstance(t, (ir.SequenceType, ir.OptionalType)) else None
             if v._metadata_props is not None:  # noqa: SLF001 - identity of the container, not content
                 acc[id(v._metadata_props)] = "value.metadata_props"
             if v._metadata is not None:  # noqa: SLF001
@@ -117,10 +119,16 @@ class CloneUniverse(Universe):
             new_ids = self._identity_tokens(new)
             self.shared_on_clone = sorted({new_ids[i] for i in new_ids if i in src_ids})
             src_def = self._defined_by(src)
+            self.scope_invalid_refs = 0
             for sgn in self._all_nodes(new):
                 for v in sgn.inputs:
                     if v is not None and id(v) in src_def:
-                        self.clone_refs_source.append(self.vid(v))
+                        if self._scope_invalid_use(src, sgn, v, new):
+                            # the SOURCE already uses a value of an inner scope from an outer scope (not valid
+                            # ONNX scoping): outside what a clone is expected to handle, recorded as divergence
+                            self.scope_invalid_refs += 1
+                        else:
+                            self.clone_refs_source.append(self.vid(v))
             for v in new.outputs:
                 if id(v) in src_def:
                     self.clone_refs_source.append(self.vid(v))
@@ -144,7 +152,10 @@ class CloneUniverse(Universe):
             self.N(c["n"]).attributes["body" + str(len(self._subgraphs(self.N(c["n"]))))] = ir.AttrGraph(
                 "body" + str(len(self._subgraphs(self.N(c["n"])))), self.G(c["g"]))
         elif op == "SetType":
-            self.V(c["v"]).type = ir.TensorType(ir.DataType[c["name"]])
+            if c["name"].startswith("SEQ:"):
+                self.V(c["v"]).type = ir.SequenceType(ir.TensorType(ir.DataType[c["name"][4:]]))
+            else:
+                self.V(c["v"]).type = ir.TensorType(ir.DataType[c["name"]])
         elif op == "SetDtype":
             self.V(c["v"]).dtype = ir.DataType[c["name"]]
         elif op == "SetShape":
@@ -171,6 +182,37 @@ class CloneUniverse(Universe):
         else:
             super()._dispatch(c)
 
+    def _scope_invalid_use(self, src, clone_node, v, clone_root) -> bool:
+        """True when value v (defined by the source) is defined in a graph that is NOT the graph of the
+        using node or one of its enclosing graphs - i.e. an inner-scope value used from outside."""
+        # depth of the defining graph of v inside the source
+        def depth_of(graph_root, target_graph, d=0):
+            if graph_root is target_graph:
+                return d
+            for n in graph_root:
+                for sg in self._subgraphs(n):
+                    r = depth_of(sg, target_graph, d + 1)
+                    if r is not None:
+                        return r
+            return None
+        p = v.producer()
+        defining = p.graph if p is not None else v.graph
+        dv = depth_of(src, defining)
+        du = depth_of(clone_root, clone_node.graph)
+        if dv is None or du is None:
+            return False
+        if dv > du:
+            return True
+        # same depth or shallower: it must be an ancestor-or-self chain; compare positions by walking up is
+        # not possible without parent links, so check containment: the using node's graph must lie inside
+        # the defining graph's clone-equivalent subtree; with depth <= 2 a sibling at the same depth > 0 is invalid
+        if dv == du and dv > 0:
+            # sibling bodies cannot see each other's values
+            idx_def = [id(g) for g in self._graphs_under(src)].index(id(defining))
+            idx_use = [id(g) for g in self._graphs_under(clone_root)].index(id(clone_node.graph))
+            return idx_def != idx_use
+        return False
+
     def _graphs_under(self, g, acc=None):
         acc = [] if acc is None else acc
         acc.append(g)
@@ -189,7 +231,7 @@ class CloneUniverse(Universe):
         o = self.project()
         o["vConst"] = [v.const_value is not None for v in self.values]
         o["sub"] = [[self.gid(g) for g in self._subgraphs(n)] for n in self.nodes]
-        o["ty"] = [("" if v.type is None else v.dtype.name) for v in self.values]
+        o["ty"] = [("" if v.type is None else ("SEQ:" if isinstance(v.type, ir.SequenceType) else "") + v.dtype.name) for v in self.values]
         o["sh"] = [(NOSHAPE if v.shape is None else [d if isinstance(d, int) else -1 for d in v.shape.dims]) for v in self.values]
         o["md"] = [sorted(v.metadata_props) for v in self.values]
         o["mt"] = [sorted(v.meta) for v in self.values]
@@ -266,6 +308,9 @@ class CloneReplayer:
                     if u.clone_proto_equal is not True and not u.clone_refs_source:
                         self.finding("C13", "C13:Clone:serializes-differently", rec, row, got=got, detail=str(u.clone_proto_equal),
                                      message="to_proto(clone) != to_proto(source)")
+                    if getattr(u, "scope_invalid_refs", 0):
+                        self.finding("DIV", f"DIV:Clone:{exp}:source-uses-inner-scope-value-from-outside", rec, row, got=got)
+                        continue
                     if exp == "ok" and real != obs_of_cs(row["post"]):
                         d = irdrive.diff_obs(obs_of_cs(row["post"]), real)
                         bad = check_invariants(real)
